@@ -536,6 +536,17 @@ static JanetSlot janetc_call(JanetFopts opts, JanetSlot *slots, JanetSlot fun) {
             const JanetFunOptimizer *o = janetc_funopt(f->def->flags);
             if (o && (!o->can_optimize || o->can_optimize(opts, slots))) {
                 specialized = 1;
+                /* The inlined forms write their target before they have read all of their
+                 * operands. If the hinted target (the variable of an enclosing `set`) is also
+                 * an operand, compute into a temporary instead. */
+                if (opts.flags & JANET_FOPTS_HINT) {
+                    for (int32_t i = 0; i < janet_v_count(slots); i++) {
+                        if (janetc_sequal(opts.hint, slots[i])) {
+                            opts.flags &= ~JANET_FOPTS_HINT;
+                            break;
+                        }
+                    }
+                }
                 retslot = o->optimize(opts, slots);
             }
         }
